@@ -12,7 +12,9 @@ from run_suite import canon_vars, has_recursion_error
 HARNESS = os.path.dirname(os.path.dirname(os.path.abspath(__file__)))
 HEADER_CELLS = ["a", "b", "n", "c", "first name", " padded ", "x;y", "q|r", "it's", 'say "hi"', '"q"', "tab\there", "back`tick", "ünï",
                 # a removed character at the edge next to a blank: cleaning is not idempotent on these
-                "price ;", "; qty", "a |", "` b", "x ,", "\t lead"]
+                "price ;", "; qty", "a |", "` b", "x ,", "\t lead",
+                # line boundaries inside a header cell (what str.splitlines would cut at)
+                "unit\nprice", "a\u2028b", "v\x0bw", "p\x85q"]
 
 
 def gen_job(r):
@@ -22,8 +24,17 @@ def gen_job(r):
             if rec:
                 recs[j] = [r.choice(HEADER_CELLS) for _ in rec]
                 break
+    if r.random() < 0.3:
+        # date-like cells (some with zone abbreviations the date parser only warns about)
+        for rec in recs[1:]:
+            if len(rec) > 3 and r.random() < 0.7:
+                rec[3] = r.choice(["2024-01-05 10:00 EST", "2024-02-01", "3 Jan 2021 PST", "2021-12-31T23:59:59"])
     prof = r.choice(["plain", "vars", "control", "errors"])
     mp = G.match_part(r, prof, max_components=4)
+    if r.random() < 0.2:
+        # process-wide interpreter state that earlier jobs may have touched (compiled patterns, warning filters, date parsing)
+        mp += " " + r.choice(['regex(/x.*/, #0)', 'exact(/[a-z]+/, #1)', '@d = date(#3)', 'date(#0)', '@dd = datetime(#3)',
+                              'push("up", upper(#0))'])
     if r.random() < 0.35:
         # what the line monitor knows about the whole file (handed over by copy when a CsvPaths creates the CsvPath)
         mp += " " + r.choice(['push("tl", total_lines())', '@tl = total_lines()', 'print("of $.csvpath.total_lines")',
@@ -31,10 +42,32 @@ def gen_job(r):
     return {"recs": recs, "text": f"$FILE[{G.scan_part(r, len(recs))}][{mp}]", "profile": prof}
 
 
+# function families that keep state outside the CsvPath (compiled patterns, warning filters, parsers, printers): every ordered
+# pair of families is run as job 0 / job 1 of some history (all pairs in the thorough tier, a sample in the quick tier)
+FAMILIES = {
+    "regex": 'regex(/x.*/, #0)',
+    "exact": 'exact(/[a-z]+/, #0)',
+    "date": '@d = date(#3)',
+    "datetime": '@dt = datetime(#3)',
+    "print": 'print("p $.csvpath.line_number $.headers.0")',
+    "stats": '@mx = max(#2)',
+    "strings": 'push("u", upper(#0))',
+}
+FAMILY_PAIRS = [(a, b) for a in FAMILIES for b in FAMILIES if a != b]
+
+
 def gen_case(seed, i):
     r = rng(seed, "jobs", i)
     jobs = [gen_job(r) for _ in range(r.randint(2, 6))]
-    if r.random() < 0.25:
+    if i % 3 == 0:
+        a, b = FAMILY_PAIRS[(i // 3 + seed) % len(FAMILY_PAIRS)]
+        for job, fam in ((jobs[0], a), (jobs[1], b)):
+            recs = [["a", "b", "n", "c"]] + [[r.choice(["x1", "abc", "Fish"]), str(k), str(r.randint(0, 9)),
+                                              r.choice(["2024-01-05 10:00 EST", "2024-02-01", "3 Jan 2021 PST"])] for k in range(r.randint(2, 4))]
+            job["recs"] = recs
+            job["text"] = f"$FILE[*][{FAMILIES[fam]}]"
+            job.pop("sheets", None)
+    if r.random() < 0.25 and i % 3 != 0:
         # the jobs read worksheets of one workbook (`book.xlsx#sheet`): the sheets differ in header row and length
         names = ["one", "two", "three"][: r.randint(2, 3)]
         sheets = {}
@@ -53,7 +86,7 @@ def gen_case(seed, i):
 
 def fresh(job):
     p = subprocess.run(["/venv/bin/python", os.path.join(HARNESS, "fresh_job.py")], input=json.dumps(job), capture_output=True,
-                       text=True, timeout=120, env={**os.environ, "PYTHONPATH": "/repo", "PYTHONDONTWRITEBYTECODE": "1"})
+                       text=True, timeout=120, env={**os.environ, "PYTHONPATH": os.environ.get("CSVPATH_REPO", "/repo"), "PYTHONDONTWRITEBYTECODE": "1"})
     if p.returncode != 0 or not p.stdout.strip():
         raise RuntimeError(f"fresh job failed: {p.stderr[-400:]}")
     return json.loads(p.stdout.strip().splitlines()[-1])
